@@ -341,6 +341,7 @@ Section Main.
      cost_left <- subtract_cost max_cost (nlen program * COST_PER_BYTE) ;;
      prog <- deser_program program ;;
      _ <- check_generator_node prog gf ;;
+     _ <- check_simple_refs refs gf ;;
      '(clvm_cost, generator_output) <- run_program run ROM (rom_args prog refs) cost_left ;;
      cost_left1 <- subtract_cost cost_left clvm_cost ;;
      legacy_tail valid_key sig_ok H K (g_cond gf) generator_output cost_left1 max_cost clvm_cost).
@@ -357,12 +358,11 @@ Section Main.
 
   Theorem agree_core program refs max_cost gf :
     max_cost <= COST_MAX ->
-    (g_simple gf = true -> refs = []) ->
     legacy program refs max_cost gf <> Err CostExceeded ->
     native program refs max_cost gf <> Err CostExceeded ->
     agree gf (legacy program refs max_cost gf) (native program refs max_cost gf).
   Proof.
-    intros LM SR. rewrite legacy_unfold, native_unfold. intros NL NN.
+    intros LM. rewrite legacy_unfold, native_unfold. intros NL NN.
     destruct (check_generator_quote program gf) as [[]|]; cbn [bind] in *; [|exact I].
     unfold subtract_cost at 1 in NL. unfold subtract_cost at 1.
     destruct (max_cost <? nlen program * COST_PER_BYTE) eqn:LB; cbn [bind] in *; [exfalso; apply NL; reflexivity|].
@@ -372,6 +372,15 @@ Section Main.
     destruct (max_cost <? base_cost program prog gf) eqn:LB2; cbn [bind] in *; [exfalso; apply NN; reflexivity|].
     apply N.ltb_ge in LB2.
     destruct (check_generator_node prog gf) as [[]|] eqn:CN; cbn [bind] in *; [|exact I].
+    (* block references under SIMPLE_GENERATOR: both paths reject (legacy: check_simple_refs, native: setup_generator_args) *)
+    assert (SRC : (check_simple_refs refs gf = Ok tt /\ (g_simple gf = true -> refs = [])) \/
+                  ((exists e, check_simple_refs refs gf = Err e) /\ exists e, setup_generator_args refs gf = Err e)).
+    { unfold check_simple_refs, setup_generator_args. destruct (g_simple gf); [destruct refs|].
+      - left. split; [reflexivity|reflexivity].
+      - right. split; eexists; reflexivity.
+      - left. split; [reflexivity|discriminate]. }
+    destruct SRC as [[CS SR]|[[e1 CS] [e2 SG]]]; rewrite CS in *; cbn [bind] in *;
+      [|rewrite SG; cbn [bind]; exact I].
     (* the generator's evaluation is the same with the native arguments and with the ROM's *)
     assert (exists args, setup_generator_args refs gf = Ok args /\
               forall c r, run prog args COST_MAX = Ok (c, r) <-> run prog (generator_args_full refs) COST_MAX = Ok (c, r))
@@ -508,7 +517,7 @@ End ToyOk.
 (* ---------------- statements ---------------- *)
 Lemma agree_thm run valid_key sig_ok H K : run_oracle_ok run H ->
   forall program refs max_cost gf,
-    max_cost <= COST_MAX -> (g_simple gf = true -> refs = []) ->
+    max_cost <= COST_MAX ->
     run_block_generator run valid_key sig_ok H K program refs max_cost gf <> Err CostExceeded ->
     run_block_generator2 run valid_key sig_ok H K program refs max_cost gf <> Err CostExceeded ->
     ((exists s1, run_block_generator run valid_key sig_ok H K program refs max_cost gf = Ok s1) <->
@@ -517,8 +526,8 @@ Lemma agree_thm run valid_key sig_ok H K : run_oracle_ok run H ->
                    run_block_generator2 run valid_key sig_ok H K program refs max_cost gf = Ok s2 ->
                    same_summary gf s1 s2).
 Proof.
-  intros (HE & HQ & HO & HR) program refs max_cost gf LM SR NL NN.
-  pose proof (agree_core run valid_key sig_ok H K HE HQ HO HR program refs max_cost gf LM SR NL NN) as A.
+  intros (HE & HQ & HO & HR) program refs max_cost gf LM NL NN.
+  pose proof (agree_core run valid_key sig_ok H K HE HQ HO HR program refs max_cost gf LM NL NN) as A.
   unfold agree in A.
   destruct (run_block_generator run valid_key sig_ok H K program refs max_cost gf) as [s1|e1];
   destruct (run_block_generator2 run valid_key sig_ok H K program refs max_cost gf) as [s2|e2]; try contradiction.
@@ -528,23 +537,23 @@ Qed.
 
 Lemma asymmetry_thm run valid_key sig_ok H K : run_oracle_ok run H ->
   forall program refs max_cost gf s2,
-    max_cost <= COST_MAX -> (g_simple gf = true -> refs = []) ->
+    max_cost <= COST_MAX ->
     run_block_generator2 run valid_key sig_ok H K program refs max_cost gf = Ok s2 ->
     run_block_generator run valid_key sig_ok H K program refs max_cost gf = Err CostExceeded \/
     exists s1, run_block_generator run valid_key sig_ok H K program refs max_cost gf = Ok s1 /\ same_summary gf s1 s2.
 Proof.
-  intros OK program refs max_cost gf s2 LM SR E2.
+  intros OK program refs max_cost gf s2 LM E2.
   destruct (run_block_generator run valid_key sig_ok H K program refs max_cost gf) as [s1|e1] eqn:E1.
   - right. exists s1. split; [reflexivity|].
     assert (NL : run_block_generator run valid_key sig_ok H K program refs max_cost gf <> Err CostExceeded) by congruence.
     assert (NN : run_block_generator2 run valid_key sig_ok H K program refs max_cost gf <> Err CostExceeded) by congruence.
-    exact (proj2 (agree_thm run valid_key sig_ok H K OK program refs max_cost gf LM SR NL NN) s1 s2 E1 E2).
+    exact (proj2 (agree_thm run valid_key sig_ok H K OK program refs max_cost gf LM NL NN) s1 s2 E1 E2).
   - destruct e1; try (left; reflexivity);
     exfalso;
     match goal with E1 : _ = Err ?e |- _ =>
       assert (NL : run_block_generator run valid_key sig_ok H K program refs max_cost gf <> Err CostExceeded) by congruence;
       assert (NN : run_block_generator2 run valid_key sig_ok H K program refs max_cost gf <> Err CostExceeded) by congruence;
-      destruct (proj2 (proj1 (agree_thm run valid_key sig_ok H K OK program refs max_cost gf LM SR NL NN)) (ex_intro _ s2 E2)) as [s1 X];
+      destruct (proj2 (proj1 (agree_thm run valid_key sig_ok H K OK program refs max_cost gf LM NL NN)) (ex_intro _ s2 E2)) as [s1 X];
       congruence
     end.
 Qed.
@@ -583,22 +592,6 @@ Proof.
   split; [exact (toy_exact H)|split; [exact (toy_quote H)|split; [exact (toy_rom_ok H)|exact (toy_rom_err H)]]].
 Qed.
 
-Lemma simple_refs_refuted :
-  exists run H, run_oracle_ok run H /\
-  exists vk sig K program refs max_cost gf,
-    g_simple gf = true /\ refs <> [] /\ max_cost <= COST_MAX /\
-    (exists s, run_block_generator run vk sig H K program refs max_cost gf = Ok s) /\
-    (exists e, run_block_generator2 run vk sig H K program refs max_cost gf = Err e /\ e <> CostExceeded).
-Proof.
-  exists (toy_run Hnull), Hnull. split; [apply toy_oracle_ok|].
-  exists (fun _ => false), (fun _ => true), K0, EMPTY_GENERATOR, [[x00]], 11000000000,
-    (gflags_of_bits FLAG_SIMPLE_GENERATOR).
-  split; [reflexivity|]. split; [discriminate|]. split; [unfold COST_MAX; lia|].
-  split.
-  - eexists. vm_compute. reflexivity.
-  - eexists. split; [vm_compute; reflexivity|discriminate].
-Qed.
-
 Lemma interned_cost_refuted :
   exists run H, run_oracle_ok run H /\
   exists vk sig K program refs max_cost gf s1 s2,
@@ -621,7 +614,7 @@ Qed.
 Lemma hypotheses_satisfiable :
   exists run H, run_oracle_ok run H /\
   exists vk sig K program refs max_cost gf s1 s2,
-    max_cost <= COST_MAX /\ (g_simple gf = true -> refs = []) /\
+    max_cost <= COST_MAX /\
     run_block_generator run vk sig H K program refs max_cost gf = Ok s1 /\
     run_block_generator2 run vk sig H K program refs max_cost gf = Ok s2 /\
     length (snd (fst s1)) = 1%nat /\ b_cost (fst (fst s2)) < b_cost (fst (fst s1)).
@@ -629,7 +622,7 @@ Proof.
   exists (toy_run sha256), sha256. split; [apply toy_oracle_ok|].
   exists (fun _ => false), (fun _ => true), K0, ONE_SPEND_GENERATOR, [], 11000000000, (gflags_of_bits 0).
   eexists. eexists.
-  split; [unfold COST_MAX; lia|]. split; [intro X; discriminate X|].
+  split; [unfold COST_MAX; lia|].
   split; [vm_compute; reflexivity|]. split; [vm_compute; reflexivity|].
   split; vm_compute; reflexivity.
 Qed.
